@@ -28,10 +28,11 @@ def canon_cell(x):
         t = pd.Timestamp(x)
         if t is pd.NaT:
             return MISSING
-        return ("t", int(t.value), str(t.tz) if t.tz is not None else None)
+        # ticks in the timestamp's own unit: far-away instants do not fit nanoseconds
+        return ("t", int(t.asm8.view("i8")), t.unit, str(t.tz) if t.tz is not None else None)
     if isinstance(x, (pd.Timedelta, np.timedelta64)):
         t = pd.Timedelta(x)
-        return MISSING if t is pd.NaT else ("d", int(t.value))
+        return MISSING if t is pd.NaT else ("d", int(t.asm8.view("i8")), t.unit)
     if isinstance(x, (list, tuple, dict, np.ndarray)):
         try:
             return ("j", json.dumps(_plain(x), sort_keys=True))
